@@ -225,7 +225,7 @@ type Frame struct {
 	fuel   int
 	unfoldDepth map[string]int
 	noSafety bool
-	onReturn func(fr *Frame, g Term, vals []Val, st *State)
+	onReturn func(fr *Frame, g Term, vals []Val, st *State, pos token.Pos)
 }
 
 func (x *Exec) posOf(p token.Pos) string {
